@@ -1283,7 +1283,11 @@ class ProgramGen:
         if kind == 0:
             loop = For(i, Int(1), Int(n), None, mk)
         elif kind == 1:
-            loop = ForIn([i], [Call(Var("ipairs"), Tab(*[FPos(Int(7 + q)) for q in range(n)]))], mk)
+            if self.pf.get("forin_capture"):
+                loop = ForIn([i], [Call(Var("ipairs"), Tab(*[FPos(Int(7 + q)) for q in range(n)]))], mk)
+            else:
+                i0 = self.fresh("i")
+                loop = ForIn([i0], [Call(Var("ipairs"), Tab(*[FPos(Int(7 + q)) for q in range(n)]))], [Local([i], [Var(i0)])] + mk)
         else:
             w = self.fresh("w")
             loop = Do([Local([w], [Int(0)]),
@@ -1305,6 +1309,8 @@ class ProgramGen:
         v = r.choice(vs)
         k = r.below(6)
         val = self.exp("int", 0, True, True)
+        if val.k in ("call", "meth"):
+            val = Par(val)      # the library's behaviour with surplus arguments is not fixed by the manual
         self.feat("seq-op:%d" % k)
         if k == 0:
             return [Assign([Ix(Var(v.name), Bin("add", Un("len", Var(v.name)), Int(1)))], [val])]
@@ -1650,7 +1656,7 @@ class ProgramGen:
             g = "g"
             body = [LocalFn(g, Fn(["x"], True, [Return(Dots(), Var("x"))])), Return(Call(Var(g), Dots()))]
         nargs = r.below(4)
-        args = [self.exp(r.choice(["int", "str", "any"]), 1, False, True) for _ in range(nargs)]
+        args = [self.exp(r.choice(["int", "str", "any"] if k not in (1, 2) else ["int", "str"]), 1, False, True) for _ in range(nargs)]
         if k == 3 and nargs < 2:
             args += [Int(1), Int(2)]
         return [LocalFn(f, Fn([], True, body)), self.emit_stat([Call(Var(f), *args)])]
@@ -1814,3 +1820,338 @@ def shrink(block, still_fails, budget=400):
                     b[:] = saved
                 i += 1
     return block
+
+
+# =====================================================================================
+# Equivalent respellings that avoid a known defect of the implementation.  Each maps an
+# AST to an AST with the same meaning under the manual; a disagreement that disappears
+# under exactly one of them is attributed to the corresponding known finding.
+# =====================================================================================
+def map_nodes(x, f):
+    """rebuild the tree bottom-up, applying f to every Node"""
+    if isinstance(x, Node):
+        n = Node(x.k, *[map_nodes(y, f) for y in x.a])
+        return f(n)
+    if isinstance(x, list):
+        return [map_nodes(y, f) for y in x]
+    if isinstance(x, tuple):
+        return tuple(map_nodes(y, f) for y in x)
+    return x
+
+
+def rw_paren_dots(block):
+    """(...)  ->  (select(1, ...))"""
+    hit = [0]
+
+    def f(n):
+        if n.k == "par" and n.a[0].k == "dots":
+            hit[0] += 1
+            return Par(Call(Var("select"), Int(1), Dots()))
+        return n
+    return map_nodes(block, f), hit[0]
+
+
+def rw_forin_copy(block):
+    """for x1..xn in es do B end  ->  for x1_..xn_ in es do local x1..xn = x1_..xn_; B end"""
+    hit = [0]
+
+    def f(n):
+        if n.k == "forin":
+            xs, es, b = n.a
+            fns = []
+            fn_nodes(b, fns)
+            if not fns:
+                return n
+            hit[0] += 1
+            ys = [x + "_" for x in xs]
+            return ForIn(ys, es, [Local(xs, [Var(y) for y in ys])] + b)
+        return n
+    return map_nodes(block, f), hit[0]
+
+
+REWRITES = {"C01-paren-vararg": rw_paren_dots, "C01-forin-shared-cell": rw_forin_copy}
+
+
+def count_kinds(x, acc):
+    """histogram of AST node kinds"""
+    if isinstance(x, Node):
+        key = x.k
+        if x.k in ("bin", "un"):
+            key = "%s:%s" % (x.k, x.a[0])
+        acc[key] = acc.get(key, 0) + 1
+        for y in x.a:
+            count_kinds(y, acc)
+    elif isinstance(x, (list, tuple)):
+        for y in x:
+            count_kinds(y, acc)
+
+
+# =====================================================================================
+# C11: raise-site x catch-site x value matrix
+# =====================================================================================
+class ErrorGen(ProgramGen):
+    """programs built from error scenarios: (value raised) x (where it is raised) x (how it
+    is caught), each followed by an observation of the caught value (identity for tables
+    and functions) and, at the end, an epilogue that exercises loops, calls, closures and
+    tables so that an inconsistent state after a catch shows up in the trace."""
+
+    VALUES = ["nil", "false", "true", "int", "flt", "str0", "str1", "str2", "strdef", "table", "function", "empty",
+              "rt-arith", "rt-call", "rt-index", "rt-concat", "rt-compare", "rt-len", "rt-div0", "rt-mod0", "rt-setindex",
+              "rt-intrep", "rt-callfield", "rt-forstep", "assert-tab", "assert-int"]
+    SITES = ["direct", "nested", "deep", "for", "while", "repeat", "forin", "iterator", "meta-index", "meta-newindex", "meta-arith",
+             "meta-call", "meta-eq", "meta-lt", "meta-concat", "meta-len", "meta-unm", "operand", "argument", "ctor", "methodarg",
+             "concat", "cond", "key", "tailcall", "retparen", "vararg", "andor", "upvalue-fn", "rhs-multi"]
+    CATCHES = ["pcall", "pcall-args", "xpcall-id", "xpcall-wrap", "xpcall-none", "xpcall-multi", "rethrow", "pcall-pcall", "inner-caught",
+               "xpcall-in-pcall", "pcall-in-xpcall", "select-results", "pcall-method"]
+
+    def __init__(self, rng, profile=None):
+        super().__init__(rng, profile)
+        self.budget = 4 + rng.below(8)
+        self.nsc = 0
+
+    # ---- the raising statements; returns (prelude statements outside, raising statements, kind of value)
+    def raiser(self, val, E):
+        r = self.rng
+        n = self.fresh("z")
+        nil_local = Local([n], [Nil()])
+        msg = r.choice([b"boom", b"bad thing", b"E1", b"", b"x:1: y"])
+        if val == "nil": return [SCall(Call(Var("error"), Nil()))]
+        if val == "empty": return [SCall(Call(Var("error")))]
+        if val == "false": return [SCall(Call(Var("error"), FalseE()))]
+        if val == "true": return [SCall(Call(Var("error"), TrueE(), Int(r.choice([0, 1, 2]))))]
+        if val == "int": return [SCall(Call(Var("error"), Int(r.below(1000)), Int(r.choice([1, 2]))))]
+        if val == "flt": return [SCall(Call(Var("error"), Flt(r.choice([2.5, 0.0, 1e100]))))]
+        if val == "str0": return [SCall(Call(Var("error"), Str(msg), Int(0)))]
+        if val == "str1": return [SCall(Call(Var("error"), Str(msg), Int(1)))]
+        if val == "str2": return [SCall(Call(Var("error"), Str(msg), Int(2)))]
+        if val == "strdef": return [SCall(Call(Var("error"), Str(msg)))]
+        if val in ("table", "function"): return [SCall(Call(Var("error"), Var(E), *([Int(r.choice([0, 1, 2]))] if r.chance(1, 2) else [])))]
+        if val == "assert-tab": return [SCall(Call(Var("assert"), r.choice([FalseE(), Nil()]), Var(E)))]
+        if val == "assert-int": return [SCall(Call(Var("assert"), FalseE(), Int(77), Int(78)))]
+        d = {"rt-arith": Bin(r.choice(["add", "sub", "mul", "div", "mod", "idiv", "pow"]), Var(n), Int(1)),
+             "rt-call": Call(Var(n), Int(1)), "rt-index": Fld(Var(n), "f"),
+             "rt-concat": Bin("concat", Var(n), Str("x")), "rt-compare": Bin(r.choice(["lt", "le", "gt", "ge"]), Var(n), Int(1)),
+             "rt-len": Un("len", Var(n)),
+             "rt-div0": Bin("idiv", Int(1), Int(0)), "rt-mod0": Bin("mod", Int(1), Int(0)),
+             "rt-intrep": Bin(r.choice(["bor", "band", "shl"]), Flt(1.5), Int(1)),
+             "rt-callfield": Call(Fld(Tab(), "nope"))}
+        if val == "rt-setindex":
+            return [nil_local, Assign([Fld(Var(n), "f")], [Int(1)])]
+        if val == "rt-forstep":
+            return [For(self.fresh("i"), Int(1), Int(2), Int(0), [])]
+        return [nil_local, Local([self.fresh("z")], [d[val]])]
+
+    def at_site(self, site, rs):
+        """statements (for the body of the protected function) that run rs at the given site"""
+        r = self.rng
+        g, h, t, x = self.fresh("g"), self.fresh("h"), self.fresh("t"), self.fresh("x")
+        em = lambda *a: self.emit_stat(list(a))
+        if site == "direct":
+            return rs
+        if site == "nested":
+            return [LocalFn(g, Fn(["q"], False, [em(Str("g"), Var("q"))] + rs + [Return(Var("q"))])), em(Call(Var(g), Int(1)))]
+        if site == "deep":
+            return [LocalFn(g, Fn(["d"], False, [If([(Bin("le", Var("d"), Int(0)), rs)], None), SCall(Call(Var(g), Bin("sub", Var("d"), Int(1)))),
+                                                em(Str("back"), Var("d"))])),
+                    SCall(Call(Var(g), Int(1 + r.below(4))))]
+        if site == "for":
+            return [For(x, Int(1), Int(3), None, [em(Var(x)), If([(Bin("eq", Var(x), Int(2)), rs)], None)])]
+        if site == "while":
+            return [Local([x], [Int(0)]), While(TrueE(), [Assign([Var(x)], [Bin("add", Var(x), Int(1))]), If([(Bin("eq", Var(x), Int(2)), rs)], None)])]
+        if site == "repeat":
+            return [Local([x], [Int(0)]), Repeat([Assign([Var(x)], [Bin("add", Var(x), Int(1))]), If([(Bin("eq", Var(x), Int(2)), rs)], None)], Bin("ge", Var(x), Int(5)))]
+        if site == "forin":
+            return [ForIn([x, t], [Call(Var("ipairs"), Tab(FPos(Int(5)), FPos(Int(6)), FPos(Int(7))))], [em(Var(x), Var(t)), If([(Bin("eq", Var(x), Int(2)), rs)], None)])]
+        if site == "iterator":
+            c = self.fresh("c")
+            it = Fn([], False, [Local([c], [Int(0)]), Return(Fn([], False, [Assign([Var(c)], [Bin("add", Var(c), Int(1))]),
+                                                                             If([(Bin("eq", Var(c), Int(2)), rs)], None), Return(Var(c))]))])
+            return [ForIn([x], [Call(Par(it))], [em(Str("it"), Var(x))])]
+        if site.startswith("meta-"):
+            ev = {"meta-index": "__index", "meta-newindex": "__newindex", "meta-arith": r.choice(["__add", "__sub", "__mul", "__div", "__mod", "__idiv", "__band", "__shl"]),
+                  "meta-call": "__call", "meta-eq": "__eq", "meta-lt": r.choice(["__lt", "__le"]), "meta-concat": "__concat",
+                  "meta-len": "__len", "meta-unm": r.choice(["__unm", "__bnot"])}[site]
+            opmap = {"__add": "add", "__sub": "sub", "__mul": "mul", "__div": "div", "__mod": "mod", "__idiv": "idiv", "__band": "band", "__shl": "shl",
+                     "__lt": "lt", "__le": "le", "__concat": "concat"}
+            obj = [Local([t], [Call(Var("setmetatable"), Tab(), Tab(FNamed(ev, Fn(["a", "b"], False, [em(Str(ev))] + rs))))])]
+            o2 = Call(Var("setmetatable"), Tab(), Call(Var("getmetatable"), Var(t)))
+            if ev == "__index": use = Local([x], [Fld(Var(t), "k")])
+            elif ev == "__newindex": use = Assign([Fld(Var(t), "k")], [Int(1)])
+            elif ev == "__call": use = SCall(Call(Var(t), Int(1)))
+            elif ev == "__eq": use = Local([x], [Bin(r.choice(["eq", "ne"]), Var(t), o2)])
+            elif ev == "__len": use = Local([x], [Un("len", Var(t))])
+            elif ev == "__unm": use = Local([x], [Un("neg", Var(t))])
+            elif ev == "__bnot": use = Local([x], [Un("bnot", Var(t))])
+            elif ev in ("__lt", "__le"): use = Local([x], [Bin(opmap[ev], Var(t), r.choice([Int(1), o2]))])
+            else:
+                a, b = (Var(t), r.choice([Int(1), Str("s")]) if ev == "__concat" else Int(1))
+                if r.chance(1, 2):
+                    a, b = b, a
+                use = Local([x], [Bin(opmap[ev], a, b)])
+            return obj + [use]
+        f = LocalFn(g, Fn([], False, [em(Str("f"))] + rs + [Return(Int(1))]))
+        if site == "operand": return [f, Local([x], [Bin(r.choice(["add", "mul", "lt", "concat"]), Int(1), Call(Var(g)))])]
+        if site == "argument": return [f, em(Int(1), Call(Var(g)), Int(3))]
+        if site == "ctor": return [f, Local([t], [Tab(FPos(Int(1)), FPos(Call(Var(g))), FNamed("k", Int(2)))])]
+        if site == "methodarg":
+            return [f, Local([t], [Tab(FNamed("m", Fn(["self", "a"], False, [em(Str("m"))])))]), SCall(Meth(Var(t), "m", Call(Var(g))))]
+        if site == "concat": return [f, Local([x], [Bin("concat", Str("a"), Bin("concat", Call(Var(g)), Str("b")))])]
+        if site == "cond": return [f, If([(Call(Var(g)), [em(Str("then"))])], [em(Str("else"))])]
+        if site == "key": return [f, Local([t], [Tab()]), Assign([Ix(Var(t), Call(Var(g)))], [Int(1)])]
+        if site == "tailcall":
+            return [f, LocalFn(h, Fn([], False, [Return(Call(Var(g)))])), em(Call(Var(h)))]
+        if site == "retparen":
+            return [f, LocalFn(h, Fn([], False, [Return(Par(Call(Var(g))))])), em(Call(Var(h)))]
+        if site == "vararg":
+            return [LocalFn(g, Fn([], True, [em(Call(Var("select"), Str("#"), Dots()))] + rs)), SCall(Call(Var(g), Int(1), Nil(), Int(3)))]
+        if site == "andor":
+            return [f, Local([x], [Or(And(TrueE(), Call(Var(g))), Int(2))])]
+        if site == "upvalue-fn":
+            return [Local([x], [Int(0)]), LocalFn(g, Fn([], False, [Assign([Var(x)], [Bin("add", Var(x), Int(1))])] + rs)),
+                    LocalFn(h, Fn([], False, [SCall(Call(Var(g))), em(Str("unreached"))])), SCall(Call(Var(h)))]
+        if site == "rhs-multi":
+            return [f, Local([x, t], [Int(1), Int(2)]), Assign([Var(x), Var(t)], [Var(t), Call(Var(g))])]
+        return rs
+
+    def scenario(self, val=None, site=None, catch=None):
+        r = self.rng
+        val = val or r.choice(self.VALUES)
+        site = site or r.choice(self.SITES)
+        catch = catch or r.choice(self.CATCHES)
+        if val == "flt" and not self.pf["floats"]:
+            val = "int"
+        if val == "str2" and site in ("tailcall", "direct", "iterator", "retparen") and not self.pf.get("level2_any"):
+            val = "str1"
+        self.nsc += 1
+        self.feat("value:" + val)
+        self.feat("site:" + site)
+        self.feat("catch:" + catch)
+        E, F = self.fresh("E"), self.fresh("P")
+        out = []
+        if val in ("table", "assert-tab"):
+            out.append(Local([E], [Tab(FNamed("tag", Int(self.nsc)))]))
+        elif val == "function":
+            out.append(Local([E], [Fn([], False, [Return(Int(self.nsc))])]))
+        saved = (self.loop_depth, self.in_va, self.cur_rets, self.block_depth)
+        self.loop_depth, self.in_va, self.cur_rets, self.block_depth = 0, False, [], 2
+        self.fn_level += 1
+        self.push()
+        pre = self.block(r.below(2), new_scope=False) if r.chance(1, 3) else []
+        if self._ends_abruptly(pre):
+            pre = pre[:-1]
+        body = pre + [self.emit_stat([Str("enter"), Int(self.nsc)])] + self.at_site(site, self.raiser(val, E))
+        if body[-1].k != "return":
+            body.append(self.emit_stat([Str("unreachable")]))
+        self.pop()
+        self.fn_level -= 1
+        self.loop_depth, self.in_va, self.cur_rets, self.block_depth = saved
+        params = ["pa", "pb"] if catch == "pcall-args" else []
+        fn = Fn(params, False, body)
+        ok, e = self.fresh("ok"), self.fresh("er")
+        em = lambda *a: self.emit_stat(list(a))
+        hid = Fn(["m"], False, [em(Str("handler"), Call(Var("type"), Var("m"))), Return(Var("m"))])
+        hwrap = Fn(["m"], False, [em(Str("handler")), Return(Tab(FNamed("wrapped", Var("m"))), Int(2))])
+        hnone = Fn(["m"], False, [em(Str("handler"))])
+        hmulti = Fn(["m"], True, [em(Str("handler"), Call(Var("select"), Str("#"), Dots())), Return(Var("m"), Int(1), Int(2))])
+        wrapped = False
+        if catch == "pcall":
+            out.append(Local([ok, e], [Call(Var("pcall"), fn)]))
+        elif catch == "pcall-args":
+            out.append(Local([ok, e], [Call(Var("pcall"), fn, Int(1), Str("two"), Int(3))]))
+        elif catch == "xpcall-id":
+            out.append(Local([ok, e], [Call(Var("xpcall"), fn, hid)]))
+        elif catch == "xpcall-wrap":
+            out.append(Local([ok, e], [Call(Var("xpcall"), fn, hwrap)]))
+            wrapped = True
+        elif catch == "xpcall-none":
+            out.append(Local([ok, e], [Call(Var("xpcall"), fn, hnone)]))
+            out.append(em(Var(ok), Var(e)))
+            self.declare(V(ok, "bool", mutable=False))
+            return out
+        elif catch == "xpcall-multi":
+            out.append(Local([ok, e, F], [Call(Var("xpcall"), fn, hmulti, Int(9))]))
+            out.append(em(Var(F)))
+        elif catch == "rethrow":
+            inner = Fn([], False, [Local(["a", "b"], [Call(Var("pcall"), fn)]), em(Str("inner"), Var("a"), Call(Var("type"), Var("b"))),
+                                   SCall(Call(Var("error"), Var("b"), Int(0))), em(Str("unreachable"))])
+            out.append(Local([ok, e], [Call(Var("pcall"), inner)]))
+        elif catch == "pcall-pcall":
+            out.append(Local([F, ok, e], [Call(Var("pcall"), Var("pcall"), fn)]))
+            out.append(em(Var(F)))
+        elif catch == "inner-caught":
+            inner = Fn([], False, [Local(["a", "b"], [Call(Var("pcall"), fn)]), em(Str("inner"), Var("a")), Return(Var("a"), Var("b"))])
+            out.append(Local([F, ok, e], [Call(Var("pcall"), inner)]))
+            out.append(em(Var(F)))
+        elif catch == "xpcall-in-pcall":
+            inner = Fn([], False, [Return(Call(Var("xpcall"), fn, hid))])
+            out.append(Local([F, ok, e], [Call(Var("pcall"), inner)]))
+            out.append(em(Var(F)))
+        elif catch == "pcall-in-xpcall":
+            inner = Fn([], False, [Local(["a", "b"], [Call(Var("pcall"), fn)]), em(Str("inner"), Var("a")), SCall(Call(Var("error"), Var("b"), Int(0)))])
+            out.append(Local([ok, e], [Call(Var("xpcall"), inner, hid)]))
+        elif catch == "select-results":
+            out.append(Local([ok, e], [Call(Var("select"), Int(1), Call(Var("pcall"), fn))]))
+            out.append(em(Call(Var("select"), Str("#"), Call(Var("pcall"), Fn([], False, [Return(Int(1), Int(2), Int(3))])))))
+        else:  # pcall-method
+            T = self.fresh("T")
+            out.append(Local([T], [Tab(FNamed("run", Fn(["self"], False, [Return(Call(Var("pcall"), fn))])))]))
+            out.append(Local([ok, e], [Meth(Var(T), "run")]))
+        self.declare(V(ok, "bool", mutable=False))
+        # observation of the caught value
+        if wrapped:
+            out.append(em(Var(ok), Call(Var("type"), Var(e))))
+            out.append(Local([e], [And(Bin("eq", Call(Var("type"), Var(e)), Str("table")), Fld(Var(e), "wrapped"))]))
+        if val in ("table", "assert-tab"):
+            out.append(em(Var(ok), Bin("eq", Var(e), Var(E)), Call(Var("rawequal"), Var(e), Var(E)), Call(Var("type"), Var(e))))
+            out.append(Assign([Fld(Var(E), "mark")], [Int(100 + self.nsc)]))
+            out.append(em(And(Bin("eq", Call(Var("type"), Var(e)), Str("table")), Fld(Var(e), "mark")), Fld(Var(E), "tag")))
+        elif val == "function":
+            out.append(em(Var(ok), Bin("eq", Var(e), Var(E)), Call(Var("type"), Var(e)), And(Bin("eq", Call(Var("type"), Var(e)), Str("function")), Call(Var(e)))))
+        else:
+            out.append(em(Var(ok), Var(e), Call(Fld(Var("math"), "type"), Var(e)) if val in ("int", "flt") else Call(Var("type"), Var(e))))
+        return out
+
+    def epilogue(self):
+        """fixed statements exercising loops, calls, closures, tables, strings after the catches"""
+        em = lambda *a: self.emit_stat(list(a))
+        s, t, f, i, c = self.fresh("s"), self.fresh("t"), self.fresh("f"), self.fresh("i"), self.fresh("c")
+        return [
+            Local([s, t], [Int(0), Tab()]),
+            For(i, Int(1), Int(4), None, [Assign([Var(s)], [Bin("add", Var(s), Var(i))]),
+                                          Assign([Ix(Var(t), Var(i))], [Fn([], False, [Return(Bin("mul", Var(i), Var(i)))])])]),
+            em(Var(s), Un("len", Var(t)), Call(Ix(Var(t), Int(3)))),
+            LocalFn(f, Fn(["n"], True, [If([(Bin("eq", Var("n"), Int(0)), [Return(Dots())])], None),
+                                       Return(Call(Var(f), Bin("sub", Var("n"), Int(1)), Var("n"), Dots()))])),
+            em(Call(Var(f), Int(3))),
+            Local([c], [Call(Var("setmetatable"), Tab(), Tab(FNamed("__index", Fn(["_", "k"], False, [Return(Bin("concat", Var("k"), Str("!")))]))))]),
+            em(Fld(Var(c), "key"), Meth(Str("abc"), "sub", Int(2)), Bin("concat", Int(1), Int(2))),
+            em(Call(Var("pcall"), Fn([], False, [Return(Int(1), Int(2))]))),
+            em(Call(Var("pcall"), Fn([], False, [SCall(Call(Var("error"), Tab(FNamed("last", TrueE()))))])) if False else
+               Call(Var("select"), Str("#"), Call(Var("pcall"), Var("error")))),
+        ]
+
+    def program(self):
+        r = self.rng
+        body = []
+        nsc = 2 + r.below(4)
+        for _ in range(nsc):
+            if self.budget > 0 and r.chance(1, 2):
+                body += self.stat()
+                if self._ends_abruptly(body):
+                    body = body[:-1]
+            body += self.scenario()
+        body += self.epilogue()
+        body.append(self.observe())
+        # sometimes the program ends with an error that reaches the embedding caller
+        if r.chance(1, 3):
+            self.feat("uncaught")
+            val = r.choice(["int", "str1", "str0", "table", "false", "rt-arith", "rt-index", "flt", "nil"])
+            E = self.fresh("E")
+            if val == "table":
+                body.append(Local([E], [Tab(FNamed("tag", Int(0)))]))
+                body.append(self.emit_stat([Var(E)]))
+            site = r.choice(["direct", "nested", "for", "meta-index", "operand"])
+            body += self.at_site(site, self.raiser(val, E))
+        else:
+            body.append(Return(Int(1), Str("done")))
+        return body, [[], []], self.feats
